@@ -140,7 +140,7 @@ func c04Pairing(c *Ctx) {
 	}
 	opaque := map[string]bool{"TryAcquirePermit": true, "RecordSuccess": true, "RecordFailure": true, "recordFailure": true, "recordSuccess": true, "recordResult": true, "IsFailure": true}
 	ee := c.NewExecEval(info, EvalConfig{Inline: func(f *ssa.Function, d int) bool {
-		if opaque[f.Name()] || !c.P.InScope[f] || f.Pkg == nil {
+		if opaque[canonName(f)] || !c.P.InScope[f] || f.Pkg == nil {
 			return false
 		}
 		n := f.Pkg.Pkg.Name()
@@ -210,7 +210,17 @@ func c04Pairing(c *Ctx) {
 			// the failure is recorded with the execution *carrying the failing result*: the delay function that decides
 			// how long the breaker stays open is computed from it
 			if m == "recordFailure" && isF == triT {
+				// the execution handed on: the helper's argument, or — when the helper's two steps are written out —
+				// the argument of the state's threshold check that follows the record
 				arg := argN(recs[0], len(fullArgs(recs[0]))-1)
+				if recs[0].Fn == nil || recvCanon(recs[0].Fn) != "circuitBreaker" {
+					arg = nil
+					for _, e := range p.Events() {
+						if isCall(e, "checkThresholdAndReleasePermit") && e.Idx > recs[0].Idx && len(e.Args) == 1 {
+							arg = e.Args[0]
+						}
+					}
+				}
 				if arg == nil || !copyOf(p, arg, exec, nil) {
 					bad("recordFailure must receive exec.CopyWithResult(<the failing result>): the open delay is computed by the delay function from that execution, which would otherwise see the previous attempt's (or no) result")
 					continue
